@@ -1248,7 +1248,7 @@ pub fn build(program: &Program, ex: &Execution) -> Model {
                 // a wait joins the signaller's clock; the signal was necessarily logged earlier or
                 // will be before the wait is granted, so join at the end instead (below)
             }
-            Ev::Note(n) if n.starts_with("parked-at-exit") => b.m.parked_at_exit = true,
+            Ev::Note(n) if n.starts_with("parked-at-exit:") => b.m.parked_at_exit = true,
             Ev::Dropped => {
                 if let Some(op) = cur_op[a] {
                     *b.m.dropped_in.entry((a, op)).or_insert(0) += 1;
